@@ -1,4 +1,5 @@
 ---- MODULE MC_Cluster ----
 EXTENDS Cluster
 MCSlotOf == [k \in {"a1", "a2", "b1"} |-> IF k = "b1" THEN "B" ELSE "A"]
+MCSlotOf2 == [k \in {"a1", "b1"} |-> IF k = "b1" THEN "B" ELSE "A"]
 ====
